@@ -78,8 +78,7 @@ struct Runner {
     }
     int64_t defaultValue() const {
         if constexpr (kTracked) return Tracked::kDefault;
-        else if constexpr (kString) return INT64_MIN + 3;   // Elem<string>::val("")
-        else return 0;
+        else return E::val(T());   // what a value-initialised element reads as (only compared for class types)
     }
 
     void check(int i) {
@@ -408,7 +407,7 @@ int main(int argc, char **argv) {
     rt::init(argc, argv);
     LifeRegistry::get().prop = "C14";
     LifeRegistry::get().context = histTail;
-    std::string types = rt::optStr("types", "int,double,byte,tracked,tracked,tracked-throwing-move,string");
+    std::string types = rt::optStr("types", "int,double,byte,pod24,tracked,tracked,tracked-throwing-move,string");
     std::vector<std::string> tl;
     for (size_t p = 0; p <= types.size();) {
         size_t q = types.find(',', p);
@@ -430,6 +429,7 @@ int main(int argc, char **argv) {
         if (t == "int") runCase<int>(s, steps);
         else if (t == "double") runCase<double>(s, steps);
         else if (t == "byte") runCase<unsigned char>(s, steps);
+        else if (t == "pod24") runCase<rt::Pod24>(s, steps);
         else if (t == "tracked") runCase<Tracked>(s, steps);
         else if (t == "tracked-throwing-move") runCase<rt::TrackedThrowingMove>(s, steps);
         else if (t == "string") runCase<std::string>(s, steps);
